@@ -61,6 +61,42 @@ func runC05(c *Ctx) {
 	ruleLimitOnlyAtTheEnd(c, "C05.16")
 	ruleNoErrorSwallow(c, "C05.17", "engine")
 	ruleStatementTextUnmodified(c, "C05.18")
+	ruleValueKindTotality(c, "C05.19", func(f *Func) bool { return f.Pkg == c.W.Pkgs["engine"] && !aggregateCone(f) }, 5)
+}
+
+// aggregateCone: the functions that compute aggregates (C07's subjects); everything else in engine serves C05/C06.
+func aggregateCone(f *Func) bool {
+	switch f.Name {
+	case "engine.aggregateRows", "engine.projectColumns", "engine.emptyAggregateRow":
+		return true
+	}
+	if _, pinned := pinnedFuncs[f.Name]; pinned {
+		return false
+	}
+	// a function the rules have never seen belongs to the aggregate code if only that code reaches it
+	cg := f.w.CG()
+	others := false
+	for name, g := range f.w.Funcs {
+		if _, pinned := pinnedFuncs[name]; !pinned || g.Pkg != f.Pkg {
+			continue
+		}
+		isAgg := name == "engine.aggregateRows" || name == "engine.projectColumns" || name == "engine.emptyAggregateRow"
+		if !isAgg && directlyCalls(cg, g, f) {
+			others = true
+		}
+	}
+	return !others
+}
+
+func directlyCalls(cg *CG, from, to *Func) bool {
+	for _, site := range cg.Sites[from] {
+		for _, callee := range site.Targets {
+			if callee == to {
+				return true
+			}
+		}
+	}
+	return false
 }
 
 // ---- C05.1 ---------------------------------------------------------------------
@@ -1471,6 +1507,8 @@ func runC07(c *Ctx) {
 	c.Rule("C07.10", "values aggregated are the values stored: the row codec is symmetric per column type (C08.4)")
 	checkCodecPair(c, "C07.10", "storage.(*Tuple).Encode", "storage.(*Tuple).Decode")
 	ruleLimitOnlyAtTheEnd(c, "C07.11")
+	ruleValueKindTotality(c, "C07.12", func(f *Func) bool { return f.Pkg == c.W.Pkgs["engine"] && aggregateCone(f) }, 0)
+	ruleGroupByResolution(c, "C07.13")
 }
 
 func c07Rounding(c *Ctx, rule string) {
@@ -1550,7 +1588,7 @@ func c07Rounding(c *Ctx, rule string) {
 }
 
 func c07GroupKey(c *Ctx, rule string) {
-	c.Rule(rule, "two rows fall in the same group only if all grouping values are equal: the group key is built from self-delimiting fragments (a %%#v rendering, which quotes strings and prints integers, booleans and NULL distinctly, followed by a constant delimiter), and the per-aggregate counter key contains the group key plus something that identifies the select column (its index or its full column reference, not just the bare column name)")
+	c.Rule(rule, "two rows fall in the same group only if all grouping values are equal: the group key is built from self-delimiting fragments (a %%#v rendering, which quotes strings and prints integers, booleans and NULL distinctly, followed by a constant delimiter), and the per-aggregate counter key contains the group key plus the position of the aggregate in the select list (the column reference alone does not tell avg(v), avg(v) apart)")
 	f := c.NeedFunc(rule, "engine.aggregateRows")
 	if f == nil {
 		return
@@ -1651,10 +1689,28 @@ func c07GroupKey(c *Ctx, rule string) {
 	}
 	// counter key
 	key = f.Name + "|counter-key"
+	// the counter key is what the per-aggregate row counters (a map from string to an integer wider than the
+	// row index: map[string]int64) are indexed with
 	var ck ast.Expr
 	inspectBody(f.Decl.Body, func(x ast.Node) bool {
-		if as, ok := x.(*ast.AssignStmt); ok && len(as.Lhs) == 1 && exprKey(as.Lhs[0]) == "countKey" {
-			ck = as.Rhs[0]
+		ix, ok := x.(*ast.IndexExpr)
+		if !ok || ck != nil {
+			return true
+		}
+		mt, ok := f.TypeOf(ix.X).Underlying().(*types.Map)
+		if !ok {
+			return true
+		}
+		kb, ok1 := mt.Key().Underlying().(*types.Basic)
+		vb, ok2 := mt.Elem().Underlying().(*types.Basic)
+		if !ok1 || !ok2 || kb.Kind() != types.String || vb.Kind() != types.Int64 {
+			return true
+		}
+		ck = ix.Index
+		if id, ok := ast.Unparen(ix.Index).(*ast.Ident); ok {
+			if rhs, _, ok := f.definedBy(f.Decl.Body, f.ObjOf(id)); ok && rhs != nil {
+				ck = rhs
+			}
 		}
 		return true
 	})
@@ -1662,35 +1718,50 @@ func c07GroupKey(c *Ctx, rule string) {
 		c.Note("%s: no per-aggregate counter key (countKey) found; not checked", rule)
 		return
 	}
+	// the column identity is the POSITION in the select list (the key of the loop over it): the same column
+	// reference can be averaged twice (avg(v), avg(v)), and two counters must not become one
 	hasGroup, hasCol := false, false
-	ast.Inspect(ck, func(y ast.Node) bool {
-		if id, ok := y.(*ast.Ident); ok {
-			if id.Name == "key" {
-				hasGroup = true
-			}
-			if id.Name == "colIdx" {
-				hasCol = true
-			}
-			if t := f.TypeOf(id); t != nil && namedTypeIs(t, "sql", "ColumnReference") {
-				// the whole reference, not a selector of it
-				hasCol = true
-			}
-		}
-		return true
-	})
-	// a selector avgCol.ColumnName cancels the whole-reference credit
-	ast.Inspect(ck, func(y ast.Node) bool {
-		if sel, ok := y.(*ast.SelectorExpr); ok {
-			if t := f.TypeOf(sel.X); t != nil && namedTypeIs(t, "sql", "ColumnReference") && !strings.Contains(exprKey(ck), "colIdx") {
-				// ref.String() is what %s prints: the whole reference; only a field of it loses the qualifier
-				if s := f.Pkg.TypesInfo.Selections[sel]; s == nil || s.Kind() == types.FieldVal {
-					hasCol = false
+	var posObjs []types.Object
+	// the group key is the string the group -> row map (a map[string]int) is indexed with
+	groupKeyObjs := map[types.Object]bool{}
+	ast.Inspect(f.Decl.Body, func(y ast.Node) bool {
+		if ix, ok := y.(*ast.IndexExpr); ok {
+			if mt, ok := f.TypeOf(ix.X).Underlying().(*types.Map); ok {
+				kb, ok1 := mt.Key().Underlying().(*types.Basic)
+				vb, ok2 := mt.Elem().Underlying().(*types.Basic)
+				if ok1 && ok2 && kb.Kind() == types.String && vb.Kind() == types.Int {
+					if id, ok := ast.Unparen(ix.Index).(*ast.Ident); ok {
+						groupKeyObjs[f.ObjOf(id)] = true
+					}
 				}
 			}
 		}
 		return true
 	})
-	c.Check(hasGroup && hasCol, rule, key, ck.Pos(), "counter key = group key + select column identity", "the AVG counter key ("+exprKey(ck)+") does not contain the group key plus the column's index or full (qualified) reference: avg(x.v) and avg(y.v) share one counter and both averages are wrong")
+	ast.Inspect(f.Decl.Body, func(y ast.Node) bool {
+		if rs, ok := y.(*ast.RangeStmt); ok && rs.Body.Pos() <= ck.Pos() && ck.End() <= rs.Body.End() {
+			if t := f.TypeOf(rs.X); t != nil && namedTypeIs(t, "sql", "SelectList") {
+				if k, ok := rs.Key.(*ast.Ident); ok && k.Name != "_" {
+					posObjs = append(posObjs, f.ObjOf(k))
+				}
+			}
+		}
+		return true
+	})
+	ast.Inspect(ck, func(y ast.Node) bool {
+		if id, ok := y.(*ast.Ident); ok {
+			if groupKeyObjs[f.ObjOf(id)] {
+				hasGroup = true
+			}
+			for _, o := range posObjs {
+				if f.ObjOf(id) == o {
+					hasCol = true
+				}
+			}
+		}
+		return true
+	})
+	c.Check(hasGroup && hasCol, rule, key, ck.Pos(), "counter key = group key + position of the select column", "the AVG counter key ("+exprKey(ck)+") does not contain the group key plus the position of the aggregate in the select list: avg(x.v) and avg(y.v) — or avg(v) written twice — share one counter, which is advanced once per column and row, and the averages are wrong")
 }
 
 func c07Seeds(c *Ctx, rule string) {
